@@ -325,6 +325,42 @@ def check_word(rec, rng, w, dict_tt):
             rec.nontrivial((spelled, L, R))
 
 
+# multi-word keywords written without the blank are ordinary names
+FUSED = ['HANDLERFOR', 'ORDERBY', 'GROUPBY', 'NOTNULL', 'UNIONALL', 'ENDIF',
+         'ENDLOOP', 'ENDWHILE', 'LEFTJOIN', 'LEFTOUTERJOIN', 'INNERJOIN',
+         'CROSSJOIN', 'DOUBLEPRECISION', 'PRIMARYKEY', 'CREATEORREPLACE',
+         'NULLSFIRST', 'NULLSLAST', 'ASCNULLSFIRST', 'DESCNULLSLAST', 'GO2',
+         'NOTLIKE', 'NOTILIKE', 'NOTREGEXP', 'LATERALVIEWEXPLODE',
+         'ATTIMEZONE', 'UNIONX', 'XJOIN', 'JOINX', 'ENDX', 'CASEX', 'ASX',
+         'INX', 'FROMX', 'VALUESX', 'USINGX', 'LIKEX', 'ASCX', 'DESCX']
+
+
+def check_fused(rec, rng, allkw):
+    for w in FUSED:
+        if w in allkw:
+            continue
+        spelled = rng.choice([w, w.lower(), w.capitalize()])
+        for L, R in KW_CONTEXTS:
+            text = L + spelled + R
+            rec.case()
+            rec.monitor('non_keyword_is_name')
+            toks = list(lexer.tokenize(text))
+            off = 0
+            hit = None
+            for tt, v in toks:
+                if off == len(L):
+                    hit = (tt, v)
+                    break
+                off += len(v)
+            if hit is None or hit[1] != spelled or hit[0] is not T.Name:
+                rec.violation('nonword', {'text': text, 'word': w, 'L': L,
+                                          'R': R, 'want': 'Token.Name'},
+                              'word %r (in no dictionary) in context %r_%r '
+                              'lexes as %r' % (spelled, L, R,
+                                               [(str(a), b) for a, b in
+                                                toks][:4]), key='fused' + w)
+
+
 def check_nonword(rec, rng, allkw):
     for _ in range(50):
         w = rng.choice('abcdefghijklmnopqrstuvwxyzÄé_') + ''.join(
@@ -366,6 +402,8 @@ def shard(ctx):
         w, tt = table[i]
         check_word(rec, rng, w, tt)
     allkw = {w for w, _ in table}
+    if ctx.shard % 4 == 0:
+        check_fused(rec, rng, allkw)
     n = 0
     while ctx.running():
         n += 1
